@@ -412,7 +412,11 @@ func (c *concRun) cUpload(client int, repo string, o *Obj, op Op) {
 		}
 		r = w.do(rs)
 		if r.Code != 202 {
-			return // expired, evicted or closed underneath us: fine
+			// expired, evicted or closed underneath us: fine - where that can happen at all
+			if !w.lenientUpload5xx && !c.closing && !w.closed && op.S == "" && op.A == 0 && op.Ms == 0 && hasCode(w.errCodes(r), "BLOB_UPLOAD_UNKNOWN") {
+				w.x.viol([]string{"C11", "C08"}, "conc.session-lost", "PATCH", fmt.Sprintf("%s: a session that was opened a moment ago, cannot have expired and cannot have been evicted answers %d BLOB_UPLOAD_UNKNOWN to its first chunk", repo, r.Code))
+			}
+			return
 		}
 		loc = r.H.Get("Location")
 		pos += n
